@@ -46,9 +46,7 @@ Theorem C18_on_read_request_follows_the_decision :
     | PForward len out host port =>
         let '(w, c0, ok) := proxy_forward cx app out host port w in
         if ok then
-          let p := get_proxy w app in
-          let w := set_proxy w app (p <| px_cin := skipn (Z.to_nat len) (px_cin p) |>) in
-          let (w, c1) := proxy_requests f cx app w in (w, c0 ++ c1)
+          let (w, c1) := proxy_requests f cx app (proxy_consume w app len) in (w, c0 ++ c1)
         else let (w, c1) := proxy_close_connection cx app w in (w, c0 ++ c1)
     | PBad => proxy_close_connection cx app w
     end.
